@@ -1244,7 +1244,10 @@ func ruleReaderRearmed(c *Checker, fn *ssa.Function) {
 		sl, ok := t.Underlying().(*types.Slice)
 		return ok && types.Identical(sl.Elem(), types.Typ[types.Byte])
 	}
-	isInt := func(t types.Type) bool { b, ok := t.Underlying().(*types.Basic); return ok && b.Info()&types.IsInteger != 0 }
+	isInt := func(t types.Type) bool {
+		b, ok := t.Underlying().(*types.Basic)
+		return ok && b.Info()&types.IsInteger != 0
+	}
 	type wait struct {
 		sel  *ssa.Select
 		body *ssa.BasicBlock
